@@ -671,7 +671,7 @@ func (c *FnCtx) execRange(st *State, x *ast.RangeStmt, label string) {
 				if x.Tok == token.DEFINE {
 					keyObj, _ = c.info().Defs[id].(*types.Var)
 					if keyObj != nil {
-						s.vars[keyObj] = Val{T: iv.T, Typ: keyObj.Type()}
+						c.declareVar(s, keyObj, Val{T: iv.T, Typ: keyObj.Type()})
 					}
 				} else {
 					c.assign(&Env{st: s}, x.Key, iv, x)
@@ -684,7 +684,7 @@ func (c *FnCtx) execRange(st *State, x *ast.RangeStmt, label string) {
 				if x.Tok == token.DEFINE {
 					valObj, _ = c.info().Defs[id].(*types.Var)
 					if valObj != nil {
-						s.vars[valObj] = ev
+						c.declareVar(s, valObj, ev)
 					}
 				} else {
 					c.assign(&Env{st: s}, x.Value, ev, x)
